@@ -23,7 +23,7 @@ def with_defaults(t):
             while tt["k"] != "named":
                 lst = lst or tt["k"] == "list"
                 tt = tt["of"]
-            a["_lit"] = "null" if a.get("nul") else ("[]" if lst else DEFAULTS.get(tt["n"], "null"))
+            a["_lit"] = a["lit"] if a.get("lit") else "null" if a.get("nul") else ("[]" if lst else DEFAULTS.get(tt["n"], "null"))
         return a
     t = dict(t)
     if t["k"] == "input":
@@ -70,7 +70,7 @@ def norm_expected(schema):
 
 def _worker(cases):
     from py_gql import build_schema
-    from py_gql.exc import ExtensionError, SchemaError, SDLError
+    from py_gql.exc import ExtensionError, InvalidValue, SchemaError, SDLError
     out = {}
     n = 0
     for c in cases:
@@ -84,6 +84,12 @@ def _worker(cases):
             except (SDLError, ExtensionError, SchemaError) as e:
                 if r["ok"]:
                     out.setdefault("sdl-build/rejects-valid/%s/%s" % (type(e).__name__, feature(c, r)), ["a valid type-system document is rejected", dict(wit, error=str(e)[:300])])
+                continue
+            except InvalidValue as e:
+                # a default that is not a value of its type: a located library error (accepted as a rejection; "unrelated" it is not)
+                if r["ok"]:
+                    out.setdefault("sdl-build/rejects-valid/%s/%s" % (type(e).__name__, feature(c, r) + ("+default-from-extension" if 36 in c["picked"] else "")),
+                                   ["a valid type-system document is rejected", dict(wit, error=str(e)[:300])])
                 continue
             except RecursionError as e:
                 out.setdefault("sdl-build/raises/RecursionError/%s" % feature(c, r), ["unrelated exception", dict(wit, error="RecursionError")])
